@@ -1,7 +1,7 @@
 #!/bin/bash
 # tools/seed_process.sh <seed-name e.g. C14a> <PROP> : verify both changes of one sub-agent and run the check on them
 N="$1"; P="$2"; R=/tmp/seed/results; mkdir -p $R
-for i in 1 2; do
+for i in $(ls /tmp/seed/$N/SEED_OUT/change*.diff 2>/dev/null | sed "s/.*change\([0-9]*\)\.diff/\1/" | sort -n); do
   /verif/tools/seed_verify.sh /tmp/seed/$N/SEED_OUT $i > $R/$N-$i.verify.log 2>&1
   /verif/tools/mutant_run.sh /tmp/seed/$N/SEED_OUT/change$i.diff $P --tier quick > $R/$N-$i.check.log 2>&1
   echo "$N-$i $(grep SEED-VERIFY $R/$N-$i.verify.log | sed 's/.*confirmed=/confirmed=/') $(grep MUTANT-RESULT $R/$N-$i.check.log | sed 's/.*exit=/exit=/;s/ patch.*//') $(grep -m2 '^violation' $R/$N-$i.check.log | sed 's/violation class=//;s/ first_run.*//' | tr '\n' ';')"
